@@ -17,8 +17,10 @@ import (
 )
 
 // C09 — vesting schedule arithmetic (pure level). Ops (shared with lean/HaqqModel/Driver/C09.lean):
-//   read s e periods total t | past s e periods t | disj sA sB pA pB | conj sA sB pA pB | align sA sB pA pB
-//   acct funder start orig lockup vesting | deleg df dv | setend e | q t | validate | claw t
+//
+//	read s e periods total t | past s e periods t | disj sA sB pA pB | conj sA sB pA pB | align sA sB pA pB
+//	acct funder start orig lockup vesting | deleg df dv | setend e | q t | validate | claw t
+//
 // periods = "len@coins;len@coins" | "-", coins = "d:v,d:v" | "-"
 var schedDenoms = []string{"aISLM", "bcoin", "ccoin"}
 
